@@ -367,6 +367,17 @@ PROPS["C16"] = {
 }
 
 
+# optional sections of the translator and the properties whose models / theorems depend on them (every other construct
+# the translator reads is needed by all properties: failing to recognise it breaks them all)
+SECTION_USERS = {
+    "utf8_alloc": ["C11"],                       # capacity of the per-character memo
+    "cached": ["C11", "C12"],                    # #[cached] declarations (memo keys, sizes, sync_writes)
+    "regex": ["C06"],                            # the declaration expression
+    "md": ["C04", "C03"],                        # detector bank, periods, plugin literals, flag bits (Model/Md.v)
+    "assets": ["C10", "C19", "C04", "C03"],      # language alphabets and the encoding -> language table
+}
+
+
 def _tok(line):
     return line.split(" ")
 
